@@ -78,3 +78,20 @@ func TxUnmarshalBinary(tx *ethtypes.Transaction, b []byte) error {
 	*tx = *info.Tx
 	return nil
 }
+
+// Signature hashing and public-key recovery of go-ethereum's signers (engine side): Signer.Hash(tx) is the
+// registered hash of tx, and recoverPlain(sighash, R, S, V) returns the signer registered for the transaction
+// with that hash (ECDSA recovery as an uninterpreted function of the transaction), or ErrInvalidSig.
+func SignerHash(_ interface{}, tx *ethtypes.Transaction) common.Hash { return TxHash(tx) }
+
+func RecoverPlain(sighash common.Hash, R, S, Vb interface{}, homestead bool) (common.Address, error) {
+	for _, info := range txByPtr {
+		if info.Hash == sighash {
+			if info.SigErr {
+				return common.Address{}, ethtypes.ErrInvalidSig
+			}
+			return info.Signer, nil
+		}
+	}
+	panic("model: recoverPlain of an unregistered signature hash")
+}
